@@ -11,7 +11,7 @@ def check(run):
     verify.verify(run, c.E, c.contracts["rt:images.Image"])
     verify.verify(run, c.E, c.contracts["ser:composeinfo.Compose"], only=("documented_layout", "other_keys_unchanged", "object_unchanged"))
     verify.verify(run, c.E, c.contracts["rt:composeinfo.Compose"])
-    for k in ("ser:common.Header", "de:common.Header", "rt:images.Images"):
+    for k in ("ser:common.Header", "de:common.Header", "rt:images.Images", "ser:images.Images:emptycell"):
         if k in c.contracts:
             verify.verify(run, c.E, c.contracts[k])
     n = 150 if run.tier == "quick" else 4000
